@@ -44,7 +44,7 @@ const (
 var p18LogOnce sync.Once
 
 type p18Op struct {
-	Kind    string            `json:"kind"` // apply | delete | query | burst (apply Times times) | deleteall
+	Kind    string            `json:"kind"` // apply | delete | query | burst (apply Times times) | many | deleteall | down | up
 	Times   int               `json:"times,omitempty"`
 	Key     int               `json:"key"`
 	Replace bool              `json:"replace,omitempty"`
@@ -131,6 +131,10 @@ func p18GenCrit(t *rapid.T, depth int) *p18Crit {
 }
 
 type p18Case struct {
+	// Faulty: with two copies of every shard, node 0 may be unreachable for stretches of the history
+	// (down / up operations): it misses the updates and deletes of that stretch and serves its stale
+	// state afterwards. One replica of every shard always holds the full history.
+	Faulty   bool    `json:"faulty,omitempty"`
 	Nodes    int     `json:"nodes"`
 	Replicas int     `json:"replicas"` // additional copies
 	Ops      []p18Op `json:"ops"`
@@ -203,6 +207,7 @@ type p18Pipeline struct {
 	queue.Client
 	nodes map[string]*p18Node
 	order []string
+	down  map[string]bool
 }
 
 func (p *p18Pipeline) deliver(n *p18Node, topic bus.Topic, msg bus.Message) (bus.Future, error) {
@@ -221,6 +226,9 @@ func (p *p18Pipeline) Publish(_ context.Context, topic bus.Topic, messages ...bu
 		if !ok {
 			return nil, fmt.Errorf("unknown node %q", m.Node())
 		}
+		if p.down[n.name] {
+			return nil, fmt.Errorf("node %s is unreachable", n.name)
+		}
 		f, err := p.deliver(n, topic, m)
 		if err != nil {
 			return nil, err
@@ -233,6 +241,9 @@ func (p *p18Pipeline) Publish(_ context.Context, topic bus.Topic, messages ...bu
 func (p *p18Pipeline) Broadcast(_ time.Duration, topic bus.Topic, message bus.Message) ([]bus.Future, error) {
 	var out []bus.Future
 	for _, name := range p.order {
+		if p.down[name] {
+			continue // the publisher broadcasts to the active nodes only
+		}
 		f, err := p.deliver(p.nodes[name], topic, message)
 		if err != nil {
 			return nil, err
@@ -277,7 +288,7 @@ func runP18(x *verifkit.Ctx, c p18Case) error {
 		return err
 	}
 	defer os.RemoveAll(dir)
-	pipe := &p18Pipeline{nodes: map[string]*p18Node{}}
+	pipe := &p18Pipeline{nodes: map[string]*p18Node{}, down: map[string]bool{}}
 	defer func() {
 		for _, n := range pipe.nodes {
 			_ = n.db.Close()
@@ -312,7 +323,7 @@ func runP18(x *verifkit.Ctx, c p18Case) error {
 	model := map[int]*p18Entry{}
 	lastMod := map[int]int64{}
 	merged, replaced, deleted, reapplied := false, false, false, false
-	userQueries, ordered := false, false
+	userQueries, ordered, wasDown, staleServed := false, false, false, false
 	checkAll := func(what string) error {
 		resp, qerr := ps.Query(ctx, &propertyv1.QueryRequest{Groups: []string{p18Group}, Name: p18Name, Limit: 1000})
 		if qerr != nil {
@@ -381,12 +392,16 @@ func runP18(x *verifkit.Ctx, c p18Case) error {
 		}
 		ops = append(ops, op)
 	}
+	// keys whose current revision was written while node 0 was unreachable (reset when a stretch begins)
+	inStretch := map[int]bool{}
+	tieSkipped := 0
 	revisions := map[int]int{}
 	maxRevisions, maxLive := 0, 0
 	for i, op := range ops {
 		what := fmt.Sprintf("op %d (%s %s)", i, op.Kind, p18ID(op.Key))
 		switch op.Kind {
 		case "apply":
+			inStretch[op.Key] = true
 			revisions[op.Key]++
 			maxRevisions = max(maxRevisions, revisions[op.Key])
 			var tags []*modelv1.Tag
@@ -453,6 +468,12 @@ func runP18(x *verifkit.Ctx, c p18Case) error {
 				continue
 			}
 		case "delete":
+			if _, live := model[op.Key]; live && pipe.down[pipe.order[0]] && !inStretch[op.Key] {
+				// node 0 holds this very revision live and would miss its tombstone: the same revision would be
+				// live on one replica and deleted on the other, a tie the property does not arbitrate
+				tieSkipped++
+				continue
+			}
 			resp, derr := ps.Delete(ctx, &propertyv1.DeleteRequest{Group: p18Group, Name: p18Name, Id: p18ID(op.Key)})
 			if derr != nil {
 				return fmt.Errorf("%s: delete failed: %v", what, derr)
@@ -465,7 +486,31 @@ func runP18(x *verifkit.Ctx, c p18Case) error {
 				deleted = true
 			}
 			delete(model, op.Key)
+		case "down":
+			if c.Faulty && !pipe.down[pipe.order[0]] {
+				pipe.down[pipe.order[0]] = true
+				wasDown = true
+				inStretch = map[int]bool{}
+			}
+			continue
+		case "up":
+			if c.Faulty && pipe.down[pipe.order[0]] {
+				delete(pipe.down, pipe.order[0])
+				staleServed = true
+			}
 		case "deleteall":
+			if pipe.down[pipe.order[0]] {
+				tie := false
+				for k := range model {
+					if !inStretch[k] {
+						tie = true
+					}
+				}
+				if tie {
+					tieSkipped++
+					continue
+				}
+			}
 			resp, derr := ps.Delete(ctx, &propertyv1.DeleteRequest{Group: p18Group, Name: p18Name})
 			if derr != nil {
 				return fmt.Errorf("%s: delete failed: %v", what, derr)
@@ -478,6 +523,11 @@ func runP18(x *verifkit.Ctx, c p18Case) error {
 			}
 			model = map[int]*p18Entry{}
 		case "query":
+			if op.Q != nil && wasDown && op.Q.Crit != nil {
+				// criteria are evaluated per node: a stale replica may match with a revision that the
+				// others have superseded; that is outside what the map model can state
+				op.Q.Crit = nil
+			}
 			if op.Q != nil {
 				if qerr := p18UserQuery(ctx, ps, model, op.Q, what); qerr != nil {
 					return qerr
@@ -522,6 +572,8 @@ func runP18(x *verifkit.Ctx, c p18Case) error {
 	x.LabelIf(replaced, "replace of a live key")
 	x.LabelIf(deleted, "delete of a live key")
 	x.LabelIf(reapplied, "apply after delete")
+	x.LabelIf(tieSkipped > 0, "deletes skipped: same-revision live/tombstone tie")
+	x.LabelIf(staleServed, "a replica missed a stretch of the history and serves again")
 	x.LabelIf(userQueries, "query with criteria / order / projection")
 	x.LabelIf(ordered, "ordered query")
 	x.LabelIf(maxRevisions > 100, "> 100 revisions of one key")
@@ -597,17 +649,23 @@ func TestVerifC18Map(t *testing.T) {
 		Property: "C18", Unit: "map",
 		Rule: "1..3 data nodes (real property databases behind the real data-node listeners), 0..1 extra copies, 2 shards; 1..25 operations over 4 keys: " +
 			"Apply with the merge or the replace strategy and 1..4 of the tags t0..t3, Delete of a key, Delete of all keys, Query by id, with a limit >= the number of live keys and with generated positive criteria (eq / in / and / or), order by a tag, tag projection and a limit around the expected size, " +
-			"a burst of 95..130 applies to one key, 95..330 applies to fresh keys - all through the real liaison PropertyService " +
+			"a burst of 95..130 applies to one key, 95..330 applies to fresh keys; with two copies optionally stretches in which node 0 is unreachable (misses updates and deletes) and serves its stale state afterwards - all through the real liaison PropertyService " +
 			"wired to the nodes by an in-process pipeline; after every operation a full query must return exactly the keys of a map model with their tags " +
 			"(merge keeps earlier tags, replace discards them), a live key keeps its creation revision and its modification revision increases with every " +
 			"apply, a deleted key is not returned; non-trivial = a merge or replace onto a live key and a delete of a live key",
 		Gen: func(t *rapid.T, _ *verifkit.KnownSet) p18Case {
-			c := p18Case{Nodes: rapid.IntRange(1, 3).Draw(t, "nodes")}
-			c.Replicas = rapid.IntRange(0, min(1, c.Nodes-1)).Draw(t, "replicas")
+			c := p18Case{Nodes: rapid.SampledFrom([]int{1, 2, 2, 3, 3}).Draw(t, "nodes")}
+			c.Replicas = min(rapid.SampledFrom([]int{0, 1, 1}).Draw(t, "replicas"), c.Nodes-1)
+			c.Faulty = c.Replicas == 1 && rapid.IntRange(0, 3).Draw(t, "faulty") > 0
+			kinds := []string{"apply", "apply", "apply", "apply", "apply", "apply", "delete", "delete", "query", "query", "deleteall"}
+			maxKey := 3
+			if c.Faulty {
+				maxKey = 1 // dense histories per key: what a stale replica holds matters only for keys touched again
+			}
 			n := rapid.IntRange(1, 25).Draw(t, "nops")
 			for i := 0; i < n; i++ {
-				op := p18Op{Kind: rapid.SampledFrom([]string{"apply", "apply", "apply", "apply", "apply", "apply", "delete", "delete", "query", "query", "deleteall"}).Draw(t, "kind"),
-					Key: rapid.IntRange(0, 3).Draw(t, "key")}
+				op := p18Op{Kind: rapid.SampledFrom(kinds).Draw(t, "kind"),
+					Key: rapid.IntRange(0, maxKey).Draw(t, "key")}
 				if op.Kind == "burst" {
 					op.Times = rapid.IntRange(95, 130).Draw(t, "times")
 				}
@@ -641,6 +699,15 @@ func TestVerifC18Map(t *testing.T) {
 				}
 				c.Ops = append(c.Ops, op)
 			}
+			if c.Faulty {
+				// one or two stretches in which node 0 is unreachable
+				for k := rapid.IntRange(1, 2).Draw(t, "stretches"); k > 0; k-- {
+					i := rapid.IntRange(0, len(c.Ops)).Draw(t, "downat")
+					j := rapid.IntRange(i, len(c.Ops)).Draw(t, "upat")
+					c.Ops = append(c.Ops[:j], append([]p18Op{{Kind: "up"}}, c.Ops[j:]...)...)
+					c.Ops = append(c.Ops[:i], append([]p18Op{{Kind: "down"}}, c.Ops[i:]...)...)
+				}
+			}
 			// at most one burst on one key and one wave of fresh keys per case (they dominate the cost)
 			heavy := rapid.SampledFrom([]string{"", "", "", "burst", "burst", "many", "both"}).Draw(t, "heavy")
 			insert := func(op p18Op) {
@@ -662,6 +729,6 @@ func TestVerifC18Map(t *testing.T) {
 			return c
 		},
 		Check:        runP18,
-		MinLabelFrac: map[string]float64{"merge onto a live key": 0.3, "replace of a live key": 0.3, "delete of a live key": 0.3, "> 100 revisions of one key": 0.05, "> 100 live keys": 0.05, "query with criteria / order / projection": 0.3, "ordered query": 0.15},
+		MinLabelFrac: map[string]float64{"merge onto a live key": 0.3, "replace of a live key": 0.3, "delete of a live key": 0.3, "> 100 revisions of one key": 0.05, "> 100 live keys": 0.05, "query with criteria / order / projection": 0.3, "ordered query": 0.08, "a replica missed a stretch of the history and serves again": 0.15},
 	})
 }
